@@ -2147,10 +2147,185 @@ func (d *Document) parseBodySubElement(decoder *xml.Decoder, startElement xml.St
 		// 书签结束
 		bookmark := &BookmarkEnd{ID: getAttributeValue(startElement.Attr, "id")}
 		return bookmark, d.skipElement(decoder, startElement.Name.Local)
+	case "sdt":
+		// 块级内容控件（目录等）：保留控件及其中的段落和表格
+		return d.parseSDT(decoder)
 	default:
 		// 跳过未知元素
 		Debugf("跳过未知元素: %s", startElement.Name.Local)
 		return nil, d.skipElement(decoder, startElement.Name.Local)
+	}
+}
+
+// parseSDT 解析内容控件（w:sdt）。控件的属性只保留本库会写出的那些（字体、ID、颜色、
+// 文档部件、占位符），控件内容中的段落、表格、书签、嵌套控件和直接放在内容里的Run都保留。
+func (d *Document) parseSDT(decoder *xml.Decoder) (*SDT, error) {
+	sdt := &SDT{
+		Properties: &SDTProperties{},
+		Content:    &SDTContent{Elements: []interface{}{}},
+	}
+	for {
+		token, err := decoder.Token()
+		if err != nil {
+			return nil, WrapError("parse_sdt", err)
+		}
+		switch t := token.(type) {
+		case xml.StartElement:
+			switch t.Name.Local {
+			case "sdtPr":
+				if err := d.parseSDTProperties(decoder, sdt.Properties); err != nil {
+					return nil, err
+				}
+			case "sdtEndPr":
+				endPr, err := d.parseSDTEndProperties(decoder)
+				if err != nil {
+					return nil, err
+				}
+				sdt.EndPr = endPr
+			case "sdtContent":
+				// 内容元素在同一个循环里读取
+			case "p":
+				paragraph, err := d.parseParagraph(decoder, t)
+				if err != nil {
+					return nil, err
+				}
+				sdt.Content.Elements = append(sdt.Content.Elements, paragraph)
+			case "tbl":
+				table, err := d.parseTable(decoder, t)
+				if err != nil {
+					return nil, err
+				}
+				sdt.Content.Elements = append(sdt.Content.Elements, table)
+			case "sdt":
+				nested, err := d.parseSDT(decoder)
+				if err != nil {
+					return nil, err
+				}
+				sdt.Content.Elements = append(sdt.Content.Elements, nested)
+			case "r":
+				run, err := d.parseRun(decoder, t)
+				if err != nil {
+					return nil, err
+				}
+				if run != nil {
+					sdt.Content.Elements = append(sdt.Content.Elements, *run)
+				}
+			case "bookmarkStart":
+				sdt.Content.Elements = append(sdt.Content.Elements, &BookmarkStart{
+					ID:   getAttributeValue(t.Attr, "id"),
+					Name: getAttributeValue(t.Attr, "name"),
+				})
+				if err := d.skipElement(decoder, t.Name.Local); err != nil {
+					return nil, err
+				}
+			case "bookmarkEnd":
+				sdt.Content.Elements = append(sdt.Content.Elements, &BookmarkEnd{ID: getAttributeValue(t.Attr, "id")})
+				if err := d.skipElement(decoder, t.Name.Local); err != nil {
+					return nil, err
+				}
+			default:
+				if err := d.skipElement(decoder, t.Name.Local); err != nil {
+					return nil, err
+				}
+			}
+		case xml.EndElement:
+			if t.Name.Local == "sdt" {
+				return sdt, nil
+			}
+		}
+	}
+}
+
+// parseSDTProperties 解析内容控件属性
+func (d *Document) parseSDTProperties(decoder *xml.Decoder, props *SDTProperties) error {
+	for {
+		token, err := decoder.Token()
+		if err != nil {
+			return WrapError("parse_sdt_properties", err)
+		}
+		switch t := token.(type) {
+		case xml.StartElement:
+			switch t.Name.Local {
+			case "rPr":
+				holder := &Run{}
+				if err := d.parseRunProperties(decoder, holder); err != nil {
+					return err
+				}
+				props.RunPr = holder.Properties
+			case "id":
+				props.ID = &SDTID{Val: getAttributeValue(t.Attr, "val")}
+				if err := d.skipElement(decoder, t.Name.Local); err != nil {
+					return err
+				}
+			case "color":
+				props.Color = &SDTColor{Val: getAttributeValue(t.Attr, "val")}
+				if err := d.skipElement(decoder, t.Name.Local); err != nil {
+					return err
+				}
+			case "docPartObj":
+				props.DocPartObj = &DocPartObj{}
+			case "docPartGallery":
+				if props.DocPartObj != nil {
+					props.DocPartObj.DocPartGallery = &DocPartGallery{Val: getAttributeValue(t.Attr, "val")}
+				}
+				if err := d.skipElement(decoder, t.Name.Local); err != nil {
+					return err
+				}
+			case "docPartUnique":
+				if props.DocPartObj != nil {
+					props.DocPartObj.DocPartUnique = &DocPartUnique{}
+				}
+				if err := d.skipElement(decoder, t.Name.Local); err != nil {
+					return err
+				}
+			case "placeholder":
+				props.Placeholder = &SDTPlaceholder{}
+			case "docPart":
+				if props.Placeholder != nil {
+					props.Placeholder.DocPart = &DocPart{Val: getAttributeValue(t.Attr, "val")}
+				}
+				if err := d.skipElement(decoder, t.Name.Local); err != nil {
+					return err
+				}
+			default:
+				if err := d.skipElement(decoder, t.Name.Local); err != nil {
+					return err
+				}
+			}
+		case xml.EndElement:
+			if t.Name.Local == "sdtPr" {
+				return nil
+			}
+		}
+	}
+}
+
+// parseSDTEndProperties 解析内容控件的结束属性
+func (d *Document) parseSDTEndProperties(decoder *xml.Decoder) (*SDTEndPr, error) {
+	endPr := &SDTEndPr{}
+	for {
+		token, err := decoder.Token()
+		if err != nil {
+			return nil, WrapError("parse_sdt_end_properties", err)
+		}
+		switch t := token.(type) {
+		case xml.StartElement:
+			if t.Name.Local == "rPr" {
+				holder := &Run{}
+				if err := d.parseRunProperties(decoder, holder); err != nil {
+					return nil, err
+				}
+				endPr.RunPr = holder.Properties
+				continue
+			}
+			if err := d.skipElement(decoder, t.Name.Local); err != nil {
+				return nil, err
+			}
+		case xml.EndElement:
+			if t.Name.Local == "sdtEndPr" {
+				return endPr, nil
+			}
+		}
 	}
 }
 
@@ -2183,8 +2358,11 @@ func (d *Document) parseParagraph(decoder *xml.Decoder, startElement xml.StartEl
 				if run != nil {
 					paragraph.Runs = append(paragraph.Runs, *run)
 				}
+			case "hyperlink", "smartTag", "ins", "moveTo", "fldSimple", "customXml", "sdt", "sdtContent":
+				// 这些元素只是包裹着Run（超链接、智能标记、修订插入、简单域、行内内容控件）：
+				// 继续读取其中的Run，使它们承载的文本不会丢失；包裹元素的结束标签在下面被忽略
 			default:
-				// 跳过其他元素
+				// 跳过其他元素（包括 w:del/w:moveFrom 中已删除的文本和 sdtPr 等属性）
 				if err := d.skipElement(decoder, t.Name.Local); err != nil {
 					return nil, err
 				}
